@@ -60,3 +60,21 @@ MUTANTS = [
     {"id": "c01-n-reorder-resets", "expect": "silent", "edits": [(L, "        self.values = []\n        self.cur_token_pos = self.start_token_pos\n        self.cur_prod_id += 1", "        self.cur_prod_id += 1\n        self.cur_token_pos = self.start_token_pos\n        self.values = []")]},
     {"id": "c01-n-values-copy", "expect": "silent", "edits": [(L, "        clone.values = self.values[:]", "        clone.values = list(self.values)")]},
 ]
+
+# ---- the splice decided by a flag carried on ProdRule instead of a look-up in the suffix set (refactoring of seeds s15/s33)
+_FLAG = [
+    (L, "    __slots__ = 'symbol', 'production', 'sort_n'\n\n    def __init__(self, symbol, production, sort_n):\n        self.symbol = symbol\n        self.production = production\n        self.sort_n = sort_n\n",
+        "    __slots__ = 'symbol', 'production', 'sort_n', 'has_suffix'\n\n    def __init__(self, symbol, production, sort_n, has_suffix=False):\n        self.symbol = symbol\n        self.production = production\n        self.sort_n = sort_n\n        self.has_suffix = has_suffix\n"),
+    (L, "                if (len(cur_prod.production) > 0\n                    and cur_prod.production[-1] in self._suffix_symbols\n                ):", "                if cur_prod.has_suffix:"),
+    (L, "            tuple(list(common_prefix) + [grp_symbol_suffix]),\n            prods_chunk[0].sort_n)", "            tuple(list(common_prefix) + [grp_symbol_suffix]),\n            prods_chunk[0].sort_n,\n            has_suffix=True)"),
+]
+_FLAG_COPY = (L, "                            final_new_rules.append(ProdRule(symbol, r.production, i))", "                            final_new_rules.append(ProdRule(symbol, r.production, i, r.has_suffix))")
+_FLAG_MERGE_OK = (L, "                        new_rules.append(\n                            tuple([first_symbol] + list(suffix_rule.production))\n                        )",
+                  "                        new_rules.append(ProdRule(\n                            symbol,\n                            tuple([first_symbol] + list(suffix_rule.production)),\n                            0, suffix_rule.has_suffix))")
+MUTANTS += [
+    {"id": "c01-flag-lost-on-merged-suffix", "expect": "fire", "edits": _FLAG + [_FLAG_COPY]},
+    {"id": "c01-flag-lost-on-copy", "expect": "fire", "edits": _FLAG + [_FLAG_MERGE_OK]},
+    {"id": "c01-flag-never-set", "expect": "fire", "edits": _FLAG[:2] + [_FLAG_COPY, _FLAG_MERGE_OK]},
+    {"id": "c01-flag-set-on-user-production", "expect": "fire", "edits": _FLAG + [_FLAG_COPY, _FLAG_MERGE_OK, (L, "                result.append(ProdRule(symbol, production, next(sort_n_gen)))", "                result.append(ProdRule(symbol, production, next(sort_n_gen), True))")]},
+    {"id": "c01-n-flag-carried-everywhere", "expect": "silent", "edits": _FLAG + [_FLAG_COPY, _FLAG_MERGE_OK]},
+]
